@@ -10,13 +10,13 @@ from . import tlc
 CFG_DEFAULTS = dict(
     routine="?", nenvs=1, budget=-1, start=0, eplimit=0, warmlearn=-1, warmact=-1, explore_only_in_warmup=False,
     ulpk=0, policy_probe=False, check_act=True, ret_applicable=False, trained=[], targets=[], frozen=[], autoreset=False,
-    epsilon4=-1, rules=[], segment="add", check_term=True, check_next=True, check_bounds=True, pairs=[],
+    epsilon4=-1, rules=[], segment="add", check_term=True, check_next=True, check_bounds=True, pairs=[], hard_pairs=[], copy_groups=[],
 )
 RULE_DEFAULTS = dict(comps=[], counter="always", mod=1, rem=0, after=0, needs_sample=True)
 EV_DEFAULTS = dict(
     env=0, obs=[-1, -1, -1], next=[-1, -1, -1], act="none", r4=0, term=False, trunc=False, after_end=False,
     box=False, a=[], lo=[], hi=[], finite=True, valid=True, n=0, key="", changed=[], step=-1,
-    chosen=-1, argmax=[], current=True, auto=False, chk_next=True, chk_term=True, has_trunc=False, table_current=True, start=-1,
+    chosen=-1, argmax=[], current=True, auto=False, chk_next=True, chk_term=True, has_trunc=False, table_current=True, start=-1, same=[],
 )
 
 
@@ -29,7 +29,7 @@ def normalise(trace):
     evs = []
     for e in trace["events"]:
         n = dict(EV_DEFAULTS)
-        for k in ("ev", "env", "obs", "next", "r4", "term", "trunc", "after_end", "n", "key", "step", "chosen", "argmax", "current", "auto", "chk_next", "chk_term", "table_current", "start"):
+        for k in ("ev", "env", "obs", "next", "r4", "term", "trunc", "after_end", "n", "key", "step", "chosen", "argmax", "current", "auto", "chk_next", "chk_term", "table_current", "start", "same"):
             if k in e:
                 n[k] = e[k]
         if "act" in e:
